@@ -9,6 +9,8 @@ import NmVerif.Containers.SmallVector
 import NmVerif.Containers.SmallVectorProofs
 import NmVerif.Containers.Either
 import NmVerif.Containers.EitherProofs
+import NmVerif.Containers.LedgerSim
+import NmVerif.Containers.SmallVectorLedger
 /-
   C19 — The STL-free containers behave like their standard counterparts over any history.
   Property statements only (+ non-vacuity examples, counterexample theorems for the defects of the unchanged tree).
@@ -157,23 +159,183 @@ theorem array_refines (n : Nat) (zero : α) (h : List (Op α)) :
     WRel (RArr n) (run (arrImpl n zero) World.empty h) (run (arraySpec n zero) World.empty h) :=
   run_sim (arr_sim n zero) h (wrel_empty _) (allOk_of_forall _ _ h (fun _ _ _ => trivial) _)
 
+/-! ### utl::tuple / utl::tuplev2 — any arity (utl::tuple is implemented for 1 … 12 components, tuple.hpp:29-371) -/
+
+/-- a tuple of `n` components (heterogeneous in C++; the model is parametric in the payload, every component carries
+    its own) holds what `std::tuple` — a list of fixed length `n` — holds after EVERY history over
+    {default / element-wise construction, copy, assign(other|self), `get<I>(t) = v`, `get<I>(t)`, destroy}, for
+    every arity `n` -/
+theorem tuple_refines (n : Nat) (zero : α) (h : List (Op α)) :
+    WRel (RArr n) (run (arrImpl n zero) World.empty h) (run (arraySpec n zero) World.empty h) :=
+  array_refines n zero h
+
+/-- components are independent, in every reachable state: `get<i>(t) = a` replaces component `i` of that tuple,
+    keeps its other components and leaves every other object alone -/
+theorem tuple_set_component (n : Nat) (zero : α) (h : List (Op α)) (s i : Nat) (a : α) (x : SVec α)
+    (hx : (run (arrImpl n zero) World.empty h).objs s = some x) (hi : i < n) :
+    x.view.length = n ∧
+    (∃ y, (step (arrImpl n zero) (run (arrImpl n zero) World.empty h) (.write s i a)).objs s = some y ∧
+          y.view = x.view.set i (some a)) ∧
+    ∀ k, k ≠ s → (step (arrImpl n zero) (run (arrImpl n zero) World.empty h) (.write s i a)).objs k
+                  = (run (arrImpl n zero) World.empty h).objs k := by
+  have hr := tuple_refines n zero h s
+  rw [hx] at hr
+  cases hy : (run (arraySpec n zero) World.empty h).objs s <;> simp only [hy, ORel] at hr
+  rename_i l
+  have hlen : x.cells.length = n := by rw [hr.cells]; simpa using hr.len
+  have hsz : (arrImpl n zero).size x = n := hr.size
+  refine ⟨by simp [SVec.view, List.length_take, hlen, hr.size], ?_, ?_⟩
+  · refine ⟨(SVec.write x i a (run (arrImpl n zero) World.empty h).led).1, ?_, ?_⟩
+    · have hi' : i < (arrImpl n zero).size x := by rw [hsz]; exact hi
+      simp only [step, hx, hi', if_true, World.put]
+      rfl
+    · have hil : i < x.cells.length := by omega
+      simp [SVec.write, SVec.store, hil, SVec.view, List.take_set]
+  · intro k hk
+    exact step_frame _ _ _ k (by simpa [Op.target] using fun e => hk e.symm)
+
+/-- a 5-tuple: element-wise construction, copy, component writes on both, assignment back -/
+example :
+    let w := run (arrImpl 5 (0 : Int)) World.empty
+      [.ctorV 0 [1, 2, 3, 4, 5], .copy 1 0, .write 0 2 77, .write 1 4 9, .assign 0 1]
+    (w.objs 0).map SVec.view = some [some 1, some 2, some 3, some 4, some 9] ∧
+    (w.objs 1).map SVec.view = some [some 1, some 2, some 3, some 4, some 9] := by decide
+
 /-! ### nmtools::small_vector over utl::either<utl::static_vector, utl::vector> -/
 
 /-- `small_vector<T,c>` holds exactly what `std::vector` holds — in static mode, in heap mode and across the switch at
-    `c` — after every history over {ctor, ctorN, ctorV, copy, assign, push, resize, write, read, destroy}
-    (`push_back(x[i])` is not part of the alphabet for this kind) -/
+    `c` — after every history over the whole alphabet {ctor, ctorN, ctorV, copy, assign, push, pushAt, resize, write,
+    read, destroy} in which `x.push_back(x[i])` is never applied to an object holding exactly `c` elements
+    (`smallOk`, decided on the reference run; see `smallVector_alias_push_counterexample`) -/
+theorem smallVector_refines_alias (c : Nat) (zero : α) (h : List (Op α))
+    (hok : AllOk (stdSpec zero) (smallOk c) World.empty h) :
+    WRel (RSmall c) (run (smallImpl c zero) World.empty h) (run (stdSpec zero) World.empty h) :=
+  run_sim (small_sim c zero) h (wrel_empty _) hok
+
+example : AllOk (stdSpec (0 : Int)) (smallOk 4) World.empty
+    [.ctorV 0 [1, 2, 3], .pushAt 0 1, .push 0 5, .pushAt 0 4, .pushAt 0 0, .copy 1 0, .resize 1 2, .pushAt 1 0] := by
+  decide
+
+/-- the same without any `push_back(x[i])` (the statement of the previous rounds) -/
 theorem smallVector_refines (c : Nat) (zero : α) (h : List (Op α))
     (hok : ∀ op ∈ h, ∀ s i, op ≠ .pushAt s i) :
     WRel (RSmall c) (run (smallImpl c zero) World.empty h) (run (stdSpec zero) World.empty h) :=
-  run_sim (small_sim c zero) h (wrel_empty _) (allOk_of_forall _ _ h (by
+  smallVector_refines_alias c zero h (allOk_of_forall _ _ h (by
     intro op hop st
-    cases op <;> simp only [smallOk]
-    exact hok _ hop _ _ rfl) _)
+    cases op <;> cases st <;> simp only [smallOk]
+    exact absurd rfl (hok _ hop _ _)) _)
 
 def smviewOf (w : World (Small Int)) (k : Nat) : Option (List (Cell Int)) := (w.objs k).map Small.view
 
 example : smviewOf (run (smallImpl 4 (0 : Int)) World.empty [.ctorN 0 5, .resize 0 2, .resize 0 6]) 0
     = some [some 0, some 0, some 0, some 0, some 0, some 0] := by decide
+
+/-! #### small_vector: allocation ledger -/
+
+/-- static mode never touches the heap: on every history in which all objects stay in static mode (`smallStaticOk`,
+    decided on the reference run: `small_vector(n)` with `n < DIM`, at most DIM values, `resize` up to DIM, `push_back` /
+    `push_back(x[i])` only below DIM elements) the ledger stays exactly the initial one — no allocation, no free, no
+    dropped block, no lifetime / bounds event —, every object is in static mode and holds what `std::vector` holds -/
+theorem smallVector_static_no_heap (c : Nat) (zero : α) (h : List (Op α))
+    (hok : AllOk (stdSpec zero) (smallStaticOk c) World.empty h) :
+    (run (smallImpl c zero) World.empty h).led = {} ∧
+    (∀ k x, (run (smallImpl c zero) World.empty h).objs k = some x → x.tagS = true) ∧
+    WRel (RSmall c) (run (smallImpl c zero) World.empty h) (run (stdSpec zero) World.empty h) := by
+  have hr := run_ledfix (small_static_sim c zero) (small_static_fix c zero) h (wrel_empty (RStat c)) hok
+  refine ⟨hr.1, ?_, fun k => ?_⟩
+  · intro k x hx
+    have := hr.2 k
+    rw [hx] at this
+    cases hy : (run (stdSpec zero) World.empty h).objs k <;> simp only [hy, ORel] at this
+    exact this.1
+  · have := hr.2 k
+    cases hx : (run (smallImpl c zero) World.empty h).objs k <;>
+      cases hy : (run (stdSpec zero) World.empty h).objs k <;> simp only [hx, hy, ORel] at this ⊢
+    exact this.rsmall
+
+example : AllOk (stdSpec (0 : Int)) (smallStaticOk 4) World.empty
+    [.ctorN 0 3, .push 0 7, .pushAt 0 9, .copy 1 0, .resize 1 2, .pushAt 1 0, .assign 0 1, .ctorV 2 [1, 2, 3, 4], .resize 2 4,
+     .write 2 3 5, .destroy 0] := by decide
+
+/-- the domain is sharp: `small_vector(DIM)` already takes the heap branch (`N < DIM`, small_vector.hpp:41) -/
+example : (run (smallImpl 4 (0 : Int)) World.empty [.ctorN 0 4]).led.allocs = 3 ∧
+    ¬ AllOk (stdSpec (0 : Int)) (smallStaticOk 4) World.empty [.ctorN 0 4] := by decide
+
+/-- conservation of blocks, EVERY history over the whole alphabet (`push_back(x[i])` at size DIM included): the blocks
+    handed out are exactly those freed, those dropped without a free (`lost`) and one per live object in heap mode
+    (`N` bounds the slots the history addresses) — nothing is freed that was not allocated and no object owns more
+    than one block -/
+theorem smallVector_ledger_account (c : Nat) (zero : α) (h : List (Op α)) (N : Nat) (hN : ∀ op ∈ h, op.target < N) :
+    ((run (smallImpl c zero) World.empty h).led.allocs : Int)
+      = (run (smallImpl c zero) World.empty h).led.freed.length + (run (smallImpl c zero) World.empty h).led.lost.length
+        + ownSum Small.own (run (smallImpl c zero) World.empty h) N := by
+  have hw : WBal (Small.Inv c) Small.own N 0 (World.empty : World (Small α)) :=
+    ⟨fun k x hx => by simp [World.empty] at hx, by rw [ownSum_empty]; rfl⟩
+  have := (run_bal (small_bal c zero) h hw hN).2
+  simp only [Ledger.bal] at this
+  omega
+
+example : ownSum Small.own (run (smallImpl 4 (0 : Int)) World.empty [.ctorN 0 5, .ctor 1, .copy 2 0, .push 1 3]) 3 = 2 := by
+  decide
+
+/-- after destroying all objects: every block handed out was either freed or dropped — `allocs = frees` holds
+    exactly when no block was dropped (`lost = []`; by `smallVector_static_no_heap` on every history that stays static,
+    by `smallVector_leak_counterexample` / `smallVector_switch_cost` not once an object has been in heap mode) -/
+theorem smallVector_final_balance (c : Nat) (zero : α) (h : List (Op α))
+    (hdead : ∀ k, (run (smallImpl c zero) World.empty h).objs k = none) :
+    (run (smallImpl c zero) World.empty h).led.allocs
+      = (run (smallImpl c zero) World.empty h).led.freed.length + (run (smallImpl c zero) World.empty h).led.lost.length := by
+  have hN : ∀ op ∈ h, op.target < (h.map Op.target).foldr max 0 + 1 := by
+    intro op hop
+    have : ∀ (l : List Nat) (a : Nat), a ∈ l → a ≤ l.foldr max 0 := by
+      intro l a ha
+      induction l with
+      | nil => cases ha
+      | cons b l ih =>
+        simp only [List.foldr_cons]
+        rcases List.mem_cons.mp ha with e | e
+        · subst e; exact Nat.le_max_left _ _
+        · exact Nat.le_trans (ih e) (Nat.le_max_right _ _)
+    have := this (h.map Op.target) op.target (List.mem_map_of_mem hop)
+    omega
+  have := smallVector_ledger_account c zero h _ hN
+  rw [ownSum_dead _ _ _ hdead] at this
+  omega
+
+example : ∀ k, (run (smallImpl 4 (0 : Int)) World.empty [.ctorN 0 5, .copy 1 0, .destroy 0, .destroy 1]).objs k = none := by
+  intro k
+  by_cases h0 : k = 0 <;> by_cases h1 : k = 1 <;> simp [run, step, World.put, World.empty, h0, h1]
+
+/-- exact allocator cost of the static → heap switch `resize(n)`, `n > DIM` (also taken by the `push_back` at size DIM):
+    not one allocation but five (four when `n ≤ 4`) — the temporary `small_vector(n)` allocates three blocks and frees
+    two, a default-constructed vector (one block) is placed over the static buffer and reallocated by the assignment
+    from the temporary when `n > 4` — and the block of the temporary (`allocs + 2`) is dropped without a free -/
+theorem smallVector_switch_cost (c : Nat) (zero : α) (x : Small α) (n : Nat) (L : Ledger) (ht : x.tagS = true) (hn : c < n) :
+    (Small.resize c zero x n L).2.fp =
+      (if 4 < n then (L.allocs + 5, (L.allocs + 3) :: (L.allocs + 1) :: L.allocs :: L.freed, (L.allocs + 2) :: L.lost)
+       else (L.allocs + 4, (L.allocs + 1) :: L.allocs :: L.freed, (L.allocs + 2) :: L.lost)) ∧
+    (Small.resize c zero x n L).1.dy.blk = some (if 4 < n then L.allocs + 4 else L.allocs + 3) :=
+  Small.resize_switch_cost c zero x n L ht hn
+
+example : (Small.resize 4 (0 : Int) (Small.mkDefault 4 0 {}).1 6 {}).2.fp = (5, [3, 1, 0], [2]) := by decide
+
+/-- `x.push_back(x[i])` on a small_vector holding exactly DIM elements: the internal `resize(DIM+1)` runs before the
+    argument is read — static mode: a vector is constructed over the bytes of the static buffer; heap mode with
+    exhausted capacity: the block is reallocated and freed — so the element stored is read through a dangling
+    reference (`std::vector` appends a copy of `x[i]`) -/
+theorem smallVector_alias_push_counterexample :
+    let hS : List (Op Int) := [.ctorV 0 [10, 11, 12, 13], .pushAt 0 2]
+    let hD : List (Op Int) := [.ctorN 0 4, .write 0 0 7, .pushAt 0 0]
+    smviewOf (run (smallImpl 4 (0 : Int)) World.empty hS) 0 = some [some 10, some 11, some 12, some 13, none] ∧
+    specOf (run (stdSpec (0 : Int)) World.empty hS) 0 = some [some 10, some 11, some 12, some 13, some 12] ∧
+    (run (smallImpl 4 (0 : Int)) World.empty hS).led.events.contains .uaf = true ∧
+    smviewOf (run (smallImpl 4 (0 : Int)) World.empty hD) 0 = some [some 7, some 0, some 0, some 0, none] ∧
+    specOf (run (stdSpec (0 : Int)) World.empty hD) 0 = some [some 7, some 0, some 0, some 0, some 7] ∧
+    (run (smallImpl 4 (0 : Int)) World.empty hD).led.events.contains .uaf = true := by decide
+
+/-- … while a heap vector with spare capacity is not reallocated and the push is correct -/
+example : smviewOf (run (smallImpl 4 (0 : Int)) World.empty [.ctorN 0 6, .resize 0 4, .write 0 1 9, .pushAt 0 1]) 0
+    = some [some 0, some 9, some 0, some 0, some 9] := by decide
 
 /-- growing past DIM and destroying: two blocks are never freed (the temporary of the static→dynamic switch and the
     heap vector itself — `~either() {}`), and the heap vector was *assigned* into storage where none was constructed -/
